@@ -243,9 +243,13 @@ struct ReluctantRepeatIterator<'a> {
     matcher: &'a crate::re_matcher::ReMatcher<'a>,
     operation: &'a Operation,
     min: usize,
-    max: usize,
-    counter: usize,
-    position: Option<usize>,
+    // the number of repetitions that can be taken at most
+    bound: usize,
+    // the iterator at index k yields the ways of matching repetition k + 1
+    iterators: Vec<Box<dyn Iterator<Item = usize> + 'a>>,
+    // the position reached last; a further repetition has not been tried
+    // from it yet
+    unexplored: Option<usize>,
     started: bool,
 }
 
@@ -261,9 +265,9 @@ impl<'a> ReluctantRepeatIterator<'a> {
             matcher,
             operation,
             min,
-            max,
-            counter: 0,
-            position: Some(position),
+            bound: max.min(matcher.search.len() - position + 1),
+            iterators: Vec::new(),
+            unexplored: Some(position),
             started: false,
         }
     }
@@ -272,36 +276,37 @@ impl<'a> ReluctantRepeatIterator<'a> {
 impl Iterator for ReluctantRepeatIterator<'_> {
     type Item = usize;
 
+    // Fewer repetitions are preferred: a position is returned before a
+    // further repetition is tried from it, and all ways of matching a
+    // repetition are tried, in the order of preference of the repeated
+    // operation.
     fn next(&mut self) -> Option<Self::Item> {
-        let mut position = self.position?;
         if !self.started {
-            // the first result is the position after the minimum number of
-            // repetitions (the start position itself if that minimum is zero)
             self.started = true;
-            while self.counter < self.min {
-                let mut it = self.operation.matches_iter(self.matcher, position);
-                if let Some(next) = it.next() {
-                    self.counter += 1;
-                    position = next;
-                } else {
-                    self.position = None;
-                    return None;
+            if self.min == 0 {
+                // zero repetitions
+                return self.unexplored;
+            }
+        }
+        loop {
+            if let Some(position) = self.unexplored.take() {
+                // try one more repetition from the position reached last
+                if self.iterators.len() < self.bound {
+                    let it = self.operation.matches_iter(self.matcher, position);
+                    self.iterators.push(it);
                 }
             }
-            self.position = Some(position);
-            return self.position;
-        }
-        // every further result takes one more repetition
-        if self.counter < self.max {
-            let mut it = self.operation.matches_iter(self.matcher, position);
-            if let Some(next) = it.next() {
-                self.counter += 1;
-                self.position = Some(next);
-                return self.position;
+            let top = self.iterators.last_mut()?;
+            if let Some(next) = top.next() {
+                self.unexplored = Some(next);
+                if self.iterators.len() >= self.min {
+                    return Some(next);
+                }
+            } else {
+                // backtrack
+                self.iterators.pop();
             }
         }
-        self.position = None;
-        None
     }
 }
 
